@@ -739,6 +739,35 @@ fn gen_cmp(thorough: bool, r: &mut Rng, emit: Emit) {
         };
         emit(&format!("cmp {} {} {} {} {} {}", k1, hexenc(&a1), hexenc(&a2), k2, hexenc(&b1), hexenc(&b2)));
     }
+    // the capping region: block sizes 3..96 (the cap `2^k * min(len)` is below 100 only for k <= 3 and
+    // short block hashes), both block hashes short (7..=16, lengths independent), the partner a light
+    // edit of the original so that the raw score exceeds the cap; every block-size relation around the
+    // capping border (round-4 seeded change C02: the cap of block hash 1 skipped at k = 3)
+    for i in 0..(if thorough { 20000 } else { 1500 }) {
+        let k1 = r.below(6) as u8;
+        let k2 = match i % 5 { 0 | 1 | 2 => k1, 3 => k1 + 1, _ => k1.saturating_sub(1) };
+        let short = |r: &mut Rng| -> Vec<u8> { let l = r.range(7, 16) as usize; fixn((0..l + 3).map(|_| r.below(64) as u8).collect(), l) };
+        let edit = |r: &mut Rng, s: &[u8], cap: usize| -> Vec<u8> {
+            let mut v = s.to_vec();
+            match r.below(5) {
+                0 => { let i = r.below(v.len() as u64) as usize; v[i] = r.below(64) as u8; }
+                1 => { v.push(r.below(64) as u8); }
+                2 => { v.pop(); }
+                3 => { v.insert(0, r.below(64) as u8); }
+                _ => { let l = r.range(7, v.len() as u64) as usize; v.truncate(l); }
+            }
+            fixn(v, cap)
+        };
+        let (a1, a2) = (short(r), short(r));
+        let (b1, b2) = match r.below(5) {
+            0 => (edit(r, &a1, 64), short(r)),
+            1 => (short(r), edit(r, &a2, 32)),
+            2 => (edit(r, &a1, 64), edit(r, &a2, 32)),
+            3 => (edit(r, &a2, 64), short(r)),       // crossing pairs (near-lt / near-gt)
+            _ => (short(r), edit(r, &a1, 32)),
+        };
+        emit(&format!("cmp {} {} {} {} {} {}", k1, hexenc(&a1), hexenc(&a2), k2, hexenc(&b1), hexenc(&b2)));
+    }
     // string front end on raw (not normalised) texts and on malformed ones
     let m = if thorough { 6000 } else { 500 };
     for _ in 0..m {
